@@ -1,6 +1,6 @@
 """debug aid: which quantified assumptions make an obligation slow?  usage: dbg_obl.py <fn key> <obligation substring> [timeout_s]"""
 import sys, time
-sys.path.insert(0, '/verif')
+import os; sys.path.insert(0, os.environ.get('VERIF_HOME', '/verif'))
 import z3
 from pyvc import smt, verify
 from pyvc.core import _has_quantifier
